@@ -218,23 +218,23 @@ rows per item plus the final run group, and every table shows AND stores exactly
 (none for the relations processing invalidates) followed by the rows produced for it, in order, each
 once — whatever flushes happened in between. -/
 theorem processM_exactly_once (sch : Schema) (s s' : Suite) (b : Int) (g : Bool) (script : List Resp)
-    (sel : Option (String × String)) (h : L.AllAligned s) (hp : processM sch s b g script sel = (s', none)) :
-    ∃ inFields items gs, processInput sch (clearAt s (affectedIdx sch)) sel = .ok (inFields, items)
+    (sel : Option (String × String)) (src : Option Suite) (h : L.AllAligned s) (hp : processM sch s b g script sel src = (s', none)) :
+    ∃ inFields items gs, inputOf sch s src sel = .ok (inFields, items)
       ∧ producedGroups sch inFields script items = (gs, none)
       ∧ gs.length = items.length + 1
       ∧ ∀ j, L.content s' j = (if (affectedIdx sch).contains j then [] else L.content s j) ++ L.rowsFor j gs.flatten
            ∧ L.stored s' j = (if (affectedIdx sch).contains j then [] else L.content s j) ++ L.rowsFor j gs.flatten := by
-  obtain ⟨inFields, items, gs, hi, hg, hproc⟩ := L.processM_ok sch s s' b g script sel hp
+  obtain ⟨inFields, items, gs, hi, hg, hproc⟩ := L.processM_ok sch s s' b g script sel src hp
   exact ⟨inFields, items, gs, hi, hg, (L.producedGroups_spec sch inFields script items gs hg).1,
     fun j => L.process_content s s' b g _ _ h hproc j⟩
 
 /-- after `process`: memory = disk and `in_transaction` is false for every table, and a commit
 afterwards changes nothing (and so does a second one: `commit_idempotent`). -/
 theorem processM_synchronized (sch : Schema) (s s' : Suite) (b : Int) (g : Bool) (script : List Resp)
-    (sel : Option (String × String)) (hp : processM sch s b g script sel = (s', none)) :
+    (sel : Option (String × String)) (src : Option Suite) (hp : processM sch s b g script sel src = (s', none)) :
     (∀ t ∈ s', abs t = t.file ∧ inTransaction t = false ∧ Aligned t) ∧ inTransactionS s' = false
     ∧ commitAll s' = (s', none) := by
-  obtain ⟨_, _, gs, _, _, hproc⟩ := L.processM_ok sch s s' b g script sel hp
+  obtain ⟨_, _, gs, _, _, hproc⟩ := L.processM_ok sch s s' b g script sel src hp
   have h1 := process_synchronized s s' b g _ _ hproc
   refine ⟨h1, ?_, process_then_commit_adds_nothing s s' b g _ _ hproc⟩
   simp only [inTransactionS, List.any_eq_false]
@@ -245,10 +245,10 @@ theorem processM_synchronized (sch : Schema) (s s' : Suite) (b : Int) (g : Bool)
 showed before `process` — uncommitted appends included, each once — and they are on disk afterwards
 (so the following commit neither loses nor repeats them). -/
 theorem processM_unaffected_kept (sch : Schema) (s s' : Suite) (b : Int) (g : Bool) (script : List Resp)
-    (sel : Option (String × String)) (h : L.AllAligned s) (hp : processM sch s b g script sel = (s', none))
+    (sel : Option (String × String)) (src : Option Suite) (h : L.AllAligned s) (hp : processM sch s b g script sel src = (s', none))
     (j : Nat) (t : TableS) (hj : sch[j]? = some t) (hn : c10AffectedTables.contains t.name = false) :
     L.content s' j = L.content s j ∧ L.stored s' j = L.content s j := by
-  obtain ⟨inFields, items, gs, _, hg, hproc⟩ := L.processM_ok sch s s' b g script sel hp
+  obtain ⟨inFields, items, gs, _, hg, hproc⟩ := L.processM_ok sch s s' b g script sel src hp
   have hc := L.process_content s s' b g _ _ h hproc j
   have hna : (affectedIdx sch).contains j = false := by
     rw [Bool.eq_false_iff]
@@ -333,7 +333,8 @@ comparison/boolean/arithmetic operators as `op:…`, calls of min/max/len/enumer
   `c10RowIterConsts`: `checkRows`/`extendL` width test; rows as opaque cell lists compared cell-wise.
 * `c10SuiteInTransactionConsts` (`any`), `c10SuiteGetitemConsts`, `c10ReloadConsts`, `c10SuiteInitConsts`
   (`autocast=False`): `inTransactionS`, `stepAt` (unknown table), `reloadAll`, reopen = `reloadAll`.
-* `c10CommitConsts` (`suffix == '.gz'`, `vol >= pers and not gzip`, `append = True/False`): `commit`.
+* `c10CommitConsts` (`suffix == '.gz'`, `vol >= pers and not gzip and _ends_with_newline(path)`, `append = True/False`),
+  `c10EndsWithNewlineConsts` (empty file or last byte `\n`): `commit`, `commitNl`.
 * `c10ProcessConsts`, `c10AddRowConsts` (`num_changes = 0`, `+= len(table) - pers`, `> buffer_size`),
   `c10Defaults` (`buffer_size=1000`, `gzip=False`, `select(cast=True)`): `process`, `addRow`, `numChanges`.
 * `c10MapperInitConsts` (`_parse_id = -1`, `_last_run_id = -1`), `c10MapParseConsts` (`keys`, `i-id`, `-1`,
@@ -374,7 +375,8 @@ theorem c10_pins :
     c10SuiteGetitemConsts = ["op:NotIn", "op:NotIn"] ∧
     c10SelectFromConsts = ["op:Not"] ∧
     c10ReloadConsts = ["op:In"] ∧
-    c10CommitConsts = ["op:NotIn", "op:Eq", ".gz", "op:And", "op:GtE", "op:Not", "True", "False"] ∧
+    c10CommitConsts = ["op:NotIn", "op:Eq", ".gz", "op:And", "op:GtE", "op:Not", "call:_ends_with_newline", "True", "False"] ∧
+    c10EndsWithNewlineConsts = ["rb", "0", "2", "op:Eq", "0", "True", "op:USub", "1", "2", "op:Eq", "1", "b'\\n'"] ∧
     c10ProcessConsts = ["op:Is", "None", "op:Or", "op:NotIn", "call:all", "op:NotEq", "op:Is", "None", "op:Is", "None", "call:list"] ∧
     c10AddRowConsts = ["0", "op:Add", "op:Sub", "call:len", "op:Gt"] ∧
     c10MapperInitConsts = ["ninputs ntokens readings first total tcpu tgc treal words l-stasks p-ctasks p-ftasks p-etasks p-stasks aedges pedges raedges rpedges tedges eedges ledges sedges redges unifications copies conses symbols others gcs i-load a-load date error comment", "result-id time r-ctasks r-ftasks r-etasks r-stasks size r-aedges r-pedges derivation surface tree mrs", "run-comment platform protocol tsdb application environment grammar avms sorts templates lexicon lrules rules user host os start end items status", "op:USub", "1", "op:USub", "1", "run parse result rule output edge tree decision preference update fold score", "parse", "parse-id", "i-id", "cast=True"] ∧
@@ -383,13 +385,13 @@ theorem c10_pins :
     c10MapResultConsts = ["parse-id", "op:In", "flags", "flags", "flags", "op:In"] ∧
     c10MapEdgeConsts = ["parse-id", "e-daughters", "e-daughters", "e-daughters", "None", "e-alternates", "e-alternates", "e-alternates", "None"] ∧
     c10MapperCleanupConsts = ["op:NotEq", "op:USub", "1", "op:NotIn", "end", "end", "call:sorted", "run-id", "run-id", "op:USub", "1", "op:In", "run", "op:USub", "1", "op:USub", "1"] ∧
-    c10Defaults = [("Table.__init__", "('utf-8',)", "None"), ("Table._in_transaction", "None", "None"), ("Table._sync_with_file", "None", "None"), ("Table.__iter__", "None", "None"), ("Table._iterslice", "None", "None"), ("Table._getitem", "None", "None"), ("Table.__getitem__", "None", "None"), ("Table.__setitem__", "None", "None"), ("Table._load_rows", "None", "None"), ("Table.__len__", "None", "None"), ("Table.clear", "None", "None"), ("Table.append", "None", "None"), ("Table.extend", "None", "None"), ("Table.update", "None", "None"), ("Table.select", "None", "{'cast': True}"), ("Table._enum_rows", "(None,)", "None"), ("Row.__init__", "(None,)", "None"), ("Row.__getitem__", "None", "None"), ("Row.__iter__", "None", "None"), ("Row.__eq__", "None", "None"), ("TestSuite.__init__", "(None, None, 'utf-8')", "None"), ("TestSuite.in_transaction", "None", "None"), ("TestSuite.__getitem__", "None", "None"), ("TestSuite.select_from", "(None, True)", "None"), ("TestSuite.reload", "None", "None"), ("TestSuite.commit", "None", "None"), ("TestSuite.process", "(None, None, None, False, 1000, None)", "None"), ("_add_row", "None", "None"), ("FieldMapper.__init__", "(None,)", "None"), ("FieldMapper.map", "None", "None"), ("FieldMapper._map_parse", "None", "None"), ("FieldMapper._map_result", "None", "None"), ("FieldMapper._map_edge", "None", "None"), ("FieldMapper.cleanup", "None", "None")] ∧
+    c10Defaults = [("Table.__init__", "('utf-8',)", "None"), ("Table._in_transaction", "None", "None"), ("Table._sync_with_file", "None", "None"), ("Table.__iter__", "None", "None"), ("Table._iterslice", "None", "None"), ("Table._getitem", "None", "None"), ("Table.__getitem__", "None", "None"), ("Table.__setitem__", "None", "None"), ("Table._load_rows", "None", "None"), ("Table.__len__", "None", "None"), ("Table.clear", "None", "None"), ("Table.append", "None", "None"), ("Table.extend", "None", "None"), ("Table.update", "None", "None"), ("Table.select", "None", "{'cast': True}"), ("Table._enum_rows", "(None,)", "None"), ("Row.__init__", "(None,)", "None"), ("Row.__getitem__", "None", "None"), ("Row.__iter__", "None", "None"), ("Row.__eq__", "None", "None"), ("TestSuite.__init__", "(None, None, 'utf-8')", "None"), ("TestSuite.in_transaction", "None", "None"), ("TestSuite.__getitem__", "None", "None"), ("TestSuite.select_from", "(None, True)", "None"), ("TestSuite.reload", "None", "None"), ("TestSuite.commit", "None", "None"), ("TestSuite.process", "(None, None, None, False, 1000, None)", "None"), ("_add_row", "None", "None"), ("_ends_with_newline", "None", "None"), ("FieldMapper.__init__", "(None,)", "None"), ("FieldMapper.map", "None", "None"), ("FieldMapper._map_parse", "None", "None"), ("FieldMapper._map_result", "None", "None"), ("FieldMapper._map_edge", "None", "None"), ("FieldMapper.cleanup", "None", "None")] ∧
     c10ParseKeys = ["ninputs", "ntokens", "readings", "first", "total", "tcpu", "tgc", "treal", "words", "l-stasks", "p-ctasks", "p-ftasks", "p-etasks", "p-stasks", "aedges", "pedges", "raedges", "rpedges", "tedges", "eedges", "ledges", "sedges", "redges", "unifications", "copies", "conses", "symbols", "others", "gcs", "i-load", "a-load", "date", "error", "comment"] ∧
     c10ResultKeys = ["result-id", "time", "r-ctasks", "r-ftasks", "r-etasks", "r-stasks", "size", "r-aedges", "r-pedges", "derivation", "surface", "tree", "mrs"] ∧
     c10RunKeys = ["run-comment", "platform", "protocol", "tsdb", "application", "environment", "grammar", "avms", "sorts", "templates", "lexicon", "lrules", "rules", "user", "host", "os", "start", "end", "items", "status"] ∧
     c10AffectedTables = ["run", "parse", "result", "rule", "output", "edge", "tree", "decision", "preference", "update", "fold", "score"] ∧
     c10TaskSelectors = [("parse", "item", "i-input"), ("transfer", "result", "mrs"), ("generate", "result", "mrs")] ∧
     c10ErrorBases = ["ITSDBError", "TSDBError", "PyDelphinException"] := by
-  refine ⟨?_, ?_, ?_, ?_, ?_, ?_, ?_, ?_, ?_, ?_, ?_, ?_, ?_, ?_, ?_, ?_, ?_, ?_, ?_, ?_, ?_, ?_, ?_, ?_, ?_, ?_, ?_, ?_, ?_, ?_, ?_, ?_, ?_, ?_, ?_, ?_, ?_, ?_, ?_, ?_, ?_⟩ <;> rfl
+  refine ⟨?_, ?_, ?_, ?_, ?_, ?_, ?_, ?_, ?_, ?_, ?_, ?_, ?_, ?_, ?_, ?_, ?_, ?_, ?_, ?_, ?_, ?_, ?_, ?_, ?_, ?_, ?_, ?_, ?_, ?_, ?_, ?_, ?_, ?_, ?_, ?_, ?_, ?_, ?_, ?_, ?_, ?_⟩ <;> rfl
 
 end Verif.C10
